@@ -369,7 +369,9 @@ class MenuConfigState:
 
         try:
             regex_searches = [re.compile(regex).search for regex in query.lower().split()]
-        except re.error as e:
+        except (re.error, OverflowError, RecursionError) as e:
+            # OverflowError: a repeat count beyond the regex engine's limit ("a{99999999999}"); RecursionError: a
+            # pattern nested too deeply for the parser
             msg = "Bad regular expression"
             if hasattr(e, "msg"):
                 msg += ": " + e.msg
